@@ -1086,6 +1086,7 @@ func idMoved(idsBefore map[string]string, is []inst) bool {
 
 type pRow struct {
 	node, sid, sname string
+	port             int
 }
 
 func (m *monCtx) peerState(p string) (nodes map[string]bool, svcs map[string]pRow, svcsOn map[string]int) {
@@ -1098,7 +1099,7 @@ func (m *monCtx) peerState(p string) (nodes map[string]bool, svcs map[string]pRo
 	}
 	for _, s := range ss {
 		if s.PeerName == p {
-			svcs[lc(s.Node)+"\x00"+lc(s.ServiceID)] = pRow{s.Node, s.ServiceID, s.ServiceName}
+			svcs[lc(s.Node)+"\x00"+lc(s.ServiceID)] = pRow{s.Node, s.ServiceID, s.ServiceName, s.ServicePort}
 			svcsOn[lc(s.Node)]++
 		}
 	}
@@ -1116,6 +1117,30 @@ func (m *monCtx) monNodes(p string, nodesBefore map[string]bool, svcsOnBefore ma
 	for n, k := range on {
 		if k > 0 && !nodes[n] {
 			m.violate("import:instance-without-node", fmt.Sprintf("peer %s: %d instance(s) on node %s which is not in the catalog", p, k, n))
+		}
+	}
+}
+
+// an update of one service leaves the instances of the peer's other services alone, unless the snapshot itself
+// claims their (node, id) or hands their node's UUID to another node (a rename by the exporter)
+func (m *monCtx) monOther(p, name string, is []inst, svcsBefore map[string]pRow, idsBefore map[string]string) {
+	claimed := map[string]bool{}
+	renamed := map[string]bool{}
+	for _, i := range is {
+		claimed[lc(i.node.name)+"\x00"+lc(i.svc.sid)] = true
+		if o, ok := idsBefore[i.node.id]; ok && i.node.id != "" && lc(o) != lc(i.node.name) {
+			renamed[lc(o)] = true
+		}
+	}
+	_, after, _ := m.peerState(p)
+	for k, s := range svcsBefore {
+		if lc(s.sname) == lc(name) || claimed[k] || renamed[lc(s.node)] {
+			continue
+		}
+		if a, ok := after[k]; !ok {
+			m.violate("import:other-service-instance-removed", fmt.Sprintf("peer %s: the update of %s removed instance %s/%s of service %s", p, name, s.node, s.sid, s.sname))
+		} else if a != s {
+			m.violate("import:other-service-instance-changed", fmt.Sprintf("peer %s: the update of %s changed instance %s/%s of service %s: %+v -> %+v", p, name, s.node, s.sid, s.sname, s, a))
 		}
 	}
 }
@@ -1399,6 +1424,7 @@ func runImportCase(run *hx.Run, r *hx.RNG, cfg caseCfg) {
 		if res.status == "ok" && wf {
 			mon.monExact(p, name, is, before)
 			mon.monNodes(p, nodesB, onB)
+			mon.monOther(p, name, is, svcsB, idsB)
 		}
 		mon.idMoved = false
 		run.Tag("msg:upd-" + kind)
